@@ -96,6 +96,10 @@ type Ops[T any] struct {
 	// Stream sends a share through WriteTo / ReadFrom (into a zero-value receiver) over a transport that
 	// fragments the byte stream (wrap decorates the reader). nil: the type has no fragmenting stream hop.
 	Stream func(a T, wrap func(io.Reader) io.Reader) (T, error)
+	// Used returns a receiver that already holds a share of another shape (which = 0, 1: two different shapes, where
+	// the type allows a larger and a smaller one); Into decodes a (MarshalBinary) into it (UnmarshalBinary). nil: not offered.
+	Used func(which int) T
+	Into func(a T, recv *T) error
 	// Flat projects a share on its residues.
 	Flat func(a T) Flat
 }
@@ -138,7 +142,7 @@ func SplitAt(k int) func(io.Reader) io.Reader {
 	return func(r io.Reader) io.Reader { return &splitReader{r: r, k: k} }
 }
 
-var variantNames = [...]string{"plain", "swap", "hop-first", "hop-second", "alias-first", "alias-second", "stream-first-1byte", "stream-second-split5"}
+var variantNames = [...]string{"plain", "swap", "hop-first", "hop-second", "alias-first", "alias-second", "stream-first-1byte", "stream-second-split5", "decode-first-into-used-receiver-A", "decode-second-into-used-receiver-B"}
 
 // Mode selects which part of the merge lattice is explored.
 type Mode int
@@ -255,19 +259,24 @@ func Merge[T any](c *engine.Chooser, ops Ops[T], shares []T, s Search) (final T,
 			// 0 plain | 1 swapped operands | 2,3 MarshalBinary hop of first/second operand | 4,5 output aliases
 			// first/second | 6,7 WriteTo/ReadFrom hop of first (one byte per read) / second (first read cut at byte 5,
 			// inside the leading 8-byte word)
-			nv := 6
+			// 8,9 MarshalBinary, then UnmarshalBinary of the first / second operand into a receiver that already holds a
+			// share of another shape (A / B: e.g. a larger and a smaller one), as an aggregator reusing receive buffers does
+			avail := []int{0, 1, 2, 3, 4, 5}
 			if ops.Stream != nil {
-				nv = 8
+				avail = append(avail, 6, 7)
 			}
-			variant = c.Choose(nv, "variant")
+			if ops.Into != nil {
+				avail = append(avail, 8, 9)
+			}
+			variant = avail[c.Choose(len(avail), "variant")]
 		}
 		c.Cover("merge-variant", variantNames[variant])
 		if variant == 1 {
 			a, b = b, a
 		}
-		if variant == 2 || variant == 3 || variant == 6 || variant == 7 {
+		if variant == 2 || variant == 3 || variant >= 6 {
 			src := &a
-			if variant == 3 || variant == 7 {
+			if variant == 3 || variant == 7 || variant == 9 {
 				src = &b
 			}
 			var h T
@@ -280,14 +289,20 @@ func Merge[T any](c *engine.Chooser, ops Ops[T], shares []T, s Search) (final T,
 				case 7:
 					how = "WriteTo/ReadFrom over a transport whose first read ends at byte 5"
 					h, e = ops.Stream(src.val, SplitAt(5))
+				case 8, 9:
+					how = "MarshalBinary/UnmarshalBinary into a receiver holding a share of another shape"
+					h = ops.Used(variant - 8)
+					e = ops.Into(src.val, &h)
 				default:
 					h, e = ops.Hop(src.val)
 				}
 				return
 			})
 			kind := "serialize"
-			if variant >= 6 {
+			if variant == 6 || variant == 7 {
 				kind = "stream"
+			} else if variant >= 8 {
+				kind = "decode-into-used-receiver"
 			}
 			if pan != nil || err != nil {
 				c.Fail(ops.Sig+"/"+kind+"/error", "share of group %x: %s failed: err=%v panic=%v", src.mask, how, err, pan)
